@@ -93,7 +93,7 @@ CHECKS = {
 }
 
 # properties whose check is built AND clean on the current tree (exit 0); others stay under not_applicable until then
-READY = ["C03", "C04", "C07", "C09", "C11", "C12", "C13", "C15", "C16", "C18", "C19", "C20"]
+READY = ["C02", "C03", "C04", "C07", "C08", "C09", "C11", "C12", "C13", "C14", "C15", "C16", "C18", "C19", "C20"]
 
 PENDING_REASON = "static check for this property is not built yet in this tree (planned, see DESIGN.md section 3)"
 
